@@ -426,7 +426,10 @@ Definition tie_step (st : mslots) (o : zop) (ob : list Z) : option (mslots * boo
           end
   | 20 => match mget st slot with
           | None => None
-          | Some m => if has_buf (m_td m) then None else Some (st, true)
+          | Some m => match compressed m with
+                      | None => None
+                      | Some d => Some (mput st slot d None, true)
+                      end
           end
   | 18 => match mget st slot with
           | None => None
